@@ -179,6 +179,6 @@ def threaded_strategy(draw, tier="quick"):
 
 PARTS = [Part("pipelines", case_strategy, execute, quick=2400, thorough=12000),
          Part("threaded", threaded_strategy, execute, quick=120, thorough=600, shards=4,
-              quick_shards=2),
+              quick_shards=2, quick_factor=1),
          Part("coverage-guided:pipelines", None, execute, quick=0, thorough=0, shards=1,
               exhaustive=runner_fuzz_part(ID, "pipelines"))]
